@@ -116,6 +116,21 @@ CHECKS = {
              "The expectile-minimiser characterisation of the fixed point is not proved (DESIGN 7, C03). Axioms: the standard "
              "library's real-number axioms (sig_forall_dec, sig_not_dec, classic, functional_extensionality_dep).",
         technique="Coq proof (composition with C01, reweighting-loop lemmas) + bit-exact correspondence + exact-rational oracle"),
+    "C04": dict(
+        cat="proof",
+        text="Theorems (Props/C04.v): for any arithmetic carrier (hence also the binary64 run) the reported lambda is 10**midpoint of two "
+             "consecutive srange entries and the lc variant is the asymmetric V-curve smoother on the grid chosen by lc > 0.5 (NaN -> "
+             "0..3.0); over the reals the selected V-curve point is the first minimum of the computed ordinates, and the band equals the "
+             "fixed-lambda smoother (ws2dgu / ws2dpgu) at the reported lambda, for all series, grids and p. The binary64 models of "
+             "ws2doptv/ws2doptvp/ws2doptvplc (log/pow10 replayed from recorded libm calls) are compared bit-for-bit (band and lambda) "
+             "with the compiled kernels and through whitsvc (naming, float32 sgrid); midpoint, band/lambda self-consistency and V-curve "
+             "minimality are also checked directly on the implementation.",
+        ref="7 (C04)",
+        note="Trusted: Coq kernel + vm_compute; harness; libm log/pow recorded by running the kernel's own source in the interpreter "
+             "(the model must issue bit-identical arguments, a miss fails the case); Numba's arange grids taken from compiled code; "
+             "minimality 'up to floating-point ties' is about the computed ordinates. Axioms: real-number axioms of the standard "
+             "library for the theorems over R; the carrier-generic ones are closed.",
+        technique="Coq proof (carrier-generic selection lemmas, reals for optimality/self-consistency) + bit-exact correspondence with oracle tables"),
 }
 
 PENDING = "no check has been built for this property yet (work in progress; see DESIGN.md section 7 for the plan)"
